@@ -55,7 +55,8 @@ def closure_needle(ctx, clo):
 
 def tokeniser(ctx, rule):
     adt, nx, remf, flagf = find_list(ctx)
-    outs = ctx.px(nx)
+    from .common import helper_inline
+    outs = ctx.px(nx, inline=helper_inline(ctx, own=(adt,)), key="helpers")
     SELF = ("H", ("param", 1))
     REM0 = ("deref", ("field", ("deref", ("param", 1)), remf))
     # census: all index / split sites discharged
